@@ -1034,8 +1034,10 @@ def _fde_cases(draw, resp_choices):
             "noise": draw(st.sampled_from([0.05, 0.2, 0.2, 0.01])),
             "offset": draw(st.sampled_from([0.0, 0.0, 3.0, -40.0])),
             "trend": draw(st.sampled_from([0.0, 0.0, 2.0, -0.5])),
+            # units are the caller's business (g, micro-g, m/s^2 ...): factors from 2^-40 to 2^40
             "scale": draw(st.sampled_from([2.0, -1.0, 0.125, -8.0, 32.0, 1024.0, 2.0 ** -20,
-                                           3.7, -10.0, 1e-3]))}
+                                           3.7, -10.0, 1e-3, 2.0 ** 20, 2.0 ** 40, -2.0 ** 30,
+                                           2.0 ** -40, 1e6, 1e9, 1e-8]))}
 
 
 @st.composite
@@ -1052,7 +1054,7 @@ def fde_pvelo_cases(draw):
 def fde_g2tie_cases(draw):
     case = _fde_cases(draw, ["absacce", "pvelo"])
     case["nbins"] = draw(st.sampled_from([3, 6, 9, 12, 15, 21, 30, 39, 300]))
-    case["scale"] = draw(st.sampled_from([3.7, 10.0, 1.0 / 3.0, 0.7, 1e-3, 123.456]))
+    case["scale"] = draw(st.sampled_from([3.7, 10.0, 1.0 / 3.0, 0.7, 1e-3, 123.456, 1e6, 1e-7]))
     return case
 
 
